@@ -114,7 +114,10 @@ CHECKS = {
              "public entry points composed with the scanner model (level A); scan_render: for ALL documents of a text grammar (paired, "
              "self-closed and void elements, quoted/unquoted/expression attribute values containing > and <, directive and bracketed "
              "attribute names, comments, CDATA, PIs, doctype, script/style bodies) scan (render d) = events d (level B), composed into "
-             "match/outward/inward and attribute-range theorems on TEXT. Correspondence over generated documents with ground truth at every position.",
+             "match/outward/inward and attribute-range theorems on TEXT; the name classes of the model ARE the XML 1.0 productions "
+             "(C09_name_start_char_is_xml, C09_name_char_is_xml, C09_grammar_names_are_xml_names; the character-class comparison with "
+             "the implementation sweeps all code points in the thorough tier). Correspondence over generated documents (names over the "
+             "whole alphabet, self-closed raw-text elements, call sequences) with ground truth at every position.",
         technique="Coq proof by induction over forests with a stack invariant (events fold) + model/implementation correspondence on generated documents with ground truth",
         ref="DESIGN.md §5 C09"),
     'C10': dict(
@@ -193,8 +196,8 @@ CHECKS = {
              "C09/C10 level-B grammars: select_item_html / get_open_tag return the tags of the document's own record with ranges "
              "slicing exactly to the written names, attributes, values and class tokens; get_css_section returns the innermost rule "
              "and its direct declarations with exact name/value/before/after offsets; select_item_css equals the tree spec. Tied by "
-             "correspondence on generated documents with ground truth at every position (incl. names over the whole XML name alphabet "
-             "below U+2000, empty-valued declarations, a last declaration `name:` ended by the body: C17_css_properties_every_tail, "
+             "correspondence on generated documents with ground truth at every position (incl. names over the whole XML 1.0 name alphabet -- "
+             "C09_name_start_char_is_xml / C09_name_char_is_xml, repair a3d4986 --, empty-valued declarations, a last declaration `name:` ended by the body: C17_css_properties_every_tail, "
              "repair f0985e3). One known finding (brace-terminated declaration full range).",
         technique="Coq proof over scanner-event and attribute-token models + model/implementation correspondence on generated documents with ground truth",
         ref="DESIGN.md §5 C17"),
